@@ -183,6 +183,9 @@ func H10_reuse() {
 	e := Eng()
 	src := reuseProgs[sv.Choice("prog", len(reuseProgs))]
 	n := CatalogueSize()
+	if reuseFirst {
+		n = TC1 // H01_reuse keeps the quick catalogue in both tiers (all ordered pairs of it)
+	}
 	t1 := Catalogue(sv.Choice("T1", n))
 	t2 := Catalogue(sv.Choice("T2", n))
 	var parsed, fresh ast.Expr
